@@ -935,3 +935,331 @@ Proof.
   apply Gs. eapply Permutation_Forall; [symmetry; apply sort_kinds_perm|].
   unfold x. rewrite Forall_map. apply Forall_forall. reflexivity.
 Qed.
+
+(* ------------------------------------------------------------------ *)
+(* restrict *)
+
+Definition restrict_reg (t : bset) (r : reg) : reg := R (bs_inter (r_set r) t) (r_forced r) (r_infos r).
+Definition restrict_kind (t : bset) (k : kind) : kind := set_cpuset k (bs_inter (k_cpuset k) t).
+
+Lemma last_in {A} (l : list A) d : In (last l d) (d :: l).
+Proof.
+  assert (G : forall l : list A, l <> [] -> In (last l d) l).
+  { induction l0 as [|x l0 IH]; intros Hn; [contradiction|].
+    destruct l0 as [|y l0]; [now left|]. right. apply IH. discriminate. }
+  destruct l as [|x l]; [now left|]. right. apply G. discriminate.
+Qed.
+
+Lemma restrict_loop_spec topo ks :
+  fst (restrict_loop topo ks) =
+    filter (fun k => negb (bs_is_empty (k_cpuset k))) (map (restrict_kind topo) ks) /\
+  Forall (fun s => exists k, In k ks /\ k_infos s = k_infos k /\ k_arr s = k_arr k) (snd (restrict_loop topo ks)) /\
+  (length (fst (restrict_loop topo ks)) + length (snd (restrict_loop topo ks)) = length ks)%nat.
+Proof.
+  induction ks as [|k rest [IH1 [IH2 IH3]]]; simpl; [repeat split; constructor|].
+  destruct (restrict_loop topo rest) as [live stales]. simpl in *.
+  assert (IH2' : Forall (fun s => exists k0, (k = k0 \/ In k0 rest) /\ k_infos s = k_infos k0 /\ k_arr s = k_arr k0) stales).
+  { eapply Forall_impl; [|exact IH2]. intros s [k0 [H1 H2]]. exists k0. auto. }
+  destruct (bs_is_empty (bs_inter (k_cpuset k) topo)) eqn:E; simpl.
+  - split; [exact IH1|]. split; [|rewrite app_length; simpl; lia].
+    apply Forall_app. split; [exact IH2'|]. constructor; [|constructor].
+    destruct (last_in rest (set_cpuset k (bs_inter (k_cpuset k) topo))) as [H|H].
+    + exists k. rewrite <- H. simpl. auto.
+    + exists (last rest (set_cpuset k (bs_inter (k_cpuset k) topo))). auto.
+  - split; [now rewrite IH1|]. split; [exact IH2'|lia].
+Qed.
+
+Lemma registered_restrict t regs p :
+  registered (map (restrict_reg t) regs) p = registered regs p && mem p t.
+Proof.
+  unfold registered. induction regs as [|r regs IH]; simpl; [reflexivity|].
+  rewrite IH, mem_inter. destruct (mem p (r_set r)), (mem p t), (existsb _ regs); reflexivity.
+Qed.
+
+Lemma cnt_restrict t ks p :
+  cnt (filter (fun k => negb (bs_is_empty (k_cpuset k))) (map (restrict_kind t) ks)) p =
+  if mem p t then cnt ks p else 0%nat.
+Proof.
+  induction ks as [|k ks IH]; simpl; [now destruct (mem p t)|].
+  destruct (bs_is_empty (bs_inter (k_cpuset k) t)) eqn:E; simpl; rewrite IH.
+  - rewrite bs_is_empty_mem in E. specialize (E p). rewrite mem_inter in E.
+    destruct (mem p t), (mem p (k_cpuset k)); simpl in *; congruence.
+  - rewrite mem_inter. destruct (mem p t), (mem p (k_cpuset k)); reflexivity.
+Qed.
+
+Lemma kind_ok_restrict regs k t :
+  kind_ok regs k -> bs_is_empty (bs_inter (k_cpuset k) t) = false ->
+  kind_ok (map (restrict_reg t) regs) (restrict_kind t k).
+Proof.
+  intros Hk Hne.
+  assert (Key : forall r, In r regs ->
+          bs_subset (bs_inter (k_cpuset k) t) (bs_inter (r_set r) t) = bs_subset (k_cpuset k) (r_set r)).
+  { intros r Hr. destruct (ko_atom _ _ Hk r Hr) as [H|H].
+    - rewrite H. apply bs_subset_spec. intros p. rewrite !mem_inter. intros Hp. apply andb_true_iff in Hp.
+      destruct Hp as [H1 ->]. rewrite bs_subset_spec in H. rewrite (H p H1). reflexivity.
+    - rewrite bs_intersects_false in H.
+      assert (bs_subset (k_cpuset k) (r_set r) = false) as ->.
+      { apply bs_subset_false. pose proof (ko_ne _ _ Hk) as Hn. apply bs_nonempty_mem in Hn.
+        destruct Hn as [p Hp]. exists p. auto. }
+      apply bs_subset_false. apply bs_nonempty_mem in Hne. destruct Hne as [p Hp]. exists p.
+      split; [exact Hp|]. rewrite mem_inter in *. apply andb_true_iff in Hp. destruct Hp as [H1 _].
+      rewrite (H p H1). reflexivity. }
+  constructor; simpl.
+  - exact Hne.
+  - intros r' Hr'. apply in_map_iff in Hr'. destruct Hr' as [r [<- Hr]]. simpl. rewrite (Key r Hr).
+    destruct (ko_atom _ _ Hk r Hr) as [H|H]; [left; exact H|right].
+    rewrite bs_intersects_false in *. intros p. rewrite !mem_inter. intros Hp. apply andb_true_iff in Hp.
+    destruct Hp as [H1 _]. rewrite (H p H1). reflexivity.
+  - intros r' Hr'. apply in_map_iff in Hr'. destruct Hr' as [r [<- Hr]]. simpl. rewrite (Key r Hr).
+    apply (ko_sup _ _ Hk r Hr).
+  - intros i Hi. destruct (ko_exact _ _ Hk i Hi) as [r [H1 [H2 H3]]].
+    exists (restrict_reg t r). split; [now apply in_map|]. simpl. rewrite (Key r H1). auto.
+  - apply (ko_nodup _ _ Hk).
+  - rewrite <- (ko_forced _ _ Hk). clear - Key. induction regs as [|r regs IH]; simpl; [reflexivity|].
+    rewrite (Key r (or_introl eq_refl)). destruct (bs_subset (k_cpuset k) (r_set r)); [reflexivity|].
+    apply IH. intros r' Hr'. apply Key. now right.
+  - apply (ko_arr _ _ Hk).
+Qed.
+
+Lemma restrict_state_inv env regs st t :
+  Inv regs st -> Inv (map (restrict_reg t) regs) (restrict_state env st t).
+Proof.
+  intros [Ik Ip It]. unfold restrict_state.
+  destruct (restrict_loop_spec t (kinds st)) as [S1 [S2 _]].
+  destruct (restrict_loop t (kinds st)) as [live stales]. simpl in S1, S2.
+  assert (I' : Inv (map (restrict_reg t) regs) (St live (stales ++ tail st))).
+  { constructor; simpl.
+    - rewrite S1. apply Forall_forall. intros k' Hk'. apply filter_In in Hk'. destruct Hk' as [H1 H2].
+      apply in_map_iff in H1. destruct H1 as [k [<- Hk]]. apply negb_true_iff in H2.
+      rewrite Forall_forall in Ik. apply kind_ok_restrict; auto.
+    - intros p. rewrite S1, cnt_restrict, registered_restrict, Ip.
+      destruct (mem p t), (registered regs p); reflexivity.
+    - apply Forall_app. split; [|exact It]. eapply Forall_impl; [|exact S2].
+      intros s [k [H1 [H2 H3]]]. unfold slot_wf. rewrite H2, H3. rewrite Forall_forall in Ik.
+      apply (ko_arr _ _ (Ik k H1)). }
+  destruct stales; [exact I'|].
+  apply (Inv_core_perm _ (St live (k :: stales ++ tail st))); [exact I'|apply rank_kinds_core].
+Qed.
+
+(* ------------------------------------------------------------------ *)
+(* hwloc_cpukinds_get_by_cpuset *)
+
+Lemma getby_loop_spec q : forall ks id,
+  bs_is_empty q = false ->
+  Forall (fun k => bs_is_empty (k_cpuset k) = false) ks ->
+  (forall p, (cnt ks p <= 1)%nat) ->
+  match getby_loop q ks id with
+  | G_OK j => exists i k, j = (id + i)%nat /\ nth_error ks i = Some k /\ bs_subset q (k_cpuset k) = true
+  | G_EXDEV => (forall k, In k ks -> bs_subset q (k_cpuset k) = false) /\
+               (exists k, In k ks /\ bs_intersects q (k_cpuset k) = true)
+  | G_ENOENT => forall k, In k ks -> bs_intersects q (k_cpuset k) = false
+  | G_EINVAL => False
+  end.
+Proof.
+  induction ks as [|k rest IH]; intros id Hq Hne Hpd; simpl; [intros k []|].
+  inversion Hne as [|? ? Hk Hrest]; subst.
+  assert (Hpd' : forall p, (cnt rest p <= 1)%nat) by (intros p; specialize (Hpd p); simpl in Hpd; lia).
+  pose proof (compare_inclusion_spec q (k_cpuset k)) as C.
+  (* if q meets k, it is inside no later kind *)
+  assert (Later : bs_intersects q (k_cpuset k) = true ->
+                  forall k2, In k2 rest -> bs_subset q (k_cpuset k2) = false).
+  { intros Hi k2 Hin. apply bs_intersects_spec in Hi. destruct Hi as [p [P1 P2]].
+    apply bs_subset_false. exists p. split; [exact P1|].
+    destruct (mem p (k_cpuset k2)) eqn:E; [|reflexivity].
+    pose proof (cnt_in rest k2 p Hin E). specialize (Hpd p). simpl in Hpd. rewrite P2 in Hpd. simpl in Hpd. lia. }
+  destruct (compare_inclusion q (k_cpuset k)).
+  - exists 0%nat, k. subst q. repeat split; [lia|apply bs_subset_refl].
+  - exists 0%nat, k. repeat split; [lia|apply C].
+  - destruct C as [C1 C2]. split.
+    + intros k2 [<-|Hin]; [exact C2|]. apply Later; [|exact Hin].
+      apply bs_nonempty_mem in Hk. destruct Hk as [p Hp]. apply bs_intersects_spec. exists p.
+      rewrite bs_subset_spec in C1. auto.
+    + exists k. split; [now left|]. apply bs_nonempty_mem in Hk. destruct Hk as [p Hp].
+      apply bs_intersects_spec. exists p. rewrite bs_subset_spec in C1. auto.
+  - destruct C as [C1 [C2 C3]]. split.
+    + intros k2 [<-|Hin]; [exact C1|]. now apply Later.
+    + exists k. split; [now left|exact C3].
+  - destruct C as [C1 [C2 C3]]. specialize (IH (S id) Hq Hrest Hpd').
+    destruct (getby_loop q rest (S id)).
+    + destruct IH as [i [k2 [H1 [H2 H3]]]]. exists (S i), k2. repeat split; [lia|exact H2|exact H3].
+    + exact IH.
+    + intros k2 [<-|Hin]; [exact C1|now apply IH].
+    + destruct IH as [I1 [k2 [I2 I3]]]. split.
+      * intros k3 [<-|Hin]; [exact C2|now apply I1].
+      * exists k2. split; [now right|exact I3].
+Qed.
+
+(* ------------------------------------------------------------------ *)
+(* histories *)
+
+Definition clamp (f : Z) : Z := if f <? 0 then UNKNOWN else f.
+
+(* effective registrations after one more operation (newest first) *)
+Definition ghost_step (regs : list reg) (o : op) : list reg :=
+  match o with
+  | OpRegister (Some s) f i fl =>
+    if (fl =? 0)%N && negb (bs_is_empty s) then R s (clamp f) (infos_of i) :: regs else regs
+  | OpRegister None _ _ _ => regs
+  | OpRestrict t => map (restrict_reg t) regs
+  | OpRank | OpDup | OpXml => regs
+  end.
+Fixpoint ghost (regs : list reg) (h : list (option str * op)) : list reg :=
+  match h with [] => regs | (_, o) :: r => ghost (ghost_step regs o) r end.
+
+Lemma kind_ok_fields regs a b :
+  k_cpuset a = k_cpuset b -> k_forced a = k_forced b -> k_infos a = k_infos b -> slot_wf b ->
+  kind_ok regs a -> kind_ok regs b.
+Proof.
+  intros E1 E2 E3 Hw [H1 H2 H3 H4 H5 H6 H7]. constructor; rewrite <- ?E1, <- ?E2, <- ?E3; auto.
+  intros Ha. apply Hw in Ha. rewrite E3. exact Ha.
+Qed.
+
+Lemma dup_state_inv regs st : Inv regs st -> Inv regs (dup_state st).
+Proof.
+  intros [Ik Ip It]. constructor; simpl; [| |constructor].
+  - rewrite Forall_map. eapply Forall_impl; [|exact Ik]. intros k Hk.
+    apply (kind_ok_fields regs k); auto. intros H. discriminate H.
+  - intros p. rewrite <- Ip. apply cnt_map_cpuset. rewrite map_map. reflexivity.
+Qed.
+
+Lemma rank_state_inv env regs st : Inv regs st -> Inv regs (rank_state env st).
+Proof. intros H. apply (Inv_core_perm regs st); [exact H|apply rank_kinds_core]. Qed.
+
+Lemma overwrite_flag_ok : (N.land OVERWRITE OVERWRITE =? 0)%N = false /\ (N.ldiff OVERWRITE OVERWRITE =? 0)%N = true.
+Proof. split; reflexivity. Qed.
+
+Lemma internal_register_not_einval st s f i :
+  bs_is_empty s = false -> internal_register st s f i OVERWRITE <> IEinval.
+Proof.
+  intros Hs. unfold internal_register. rewrite Hs. rewrite (proj2 overwrite_flag_ok). simpl.
+  destruct (grow st); [|discriminate].
+  destruct (reg_loop _ _ _ _ _ _); [|discriminate].
+  destruct (bs_is_empty cs); [discriminate|]. destruct tl; [discriminate|].
+  destruct (k_arr k); discriminate.
+Qed.
+
+Lemma pub_register_inv env regs st cs f i fl st' rc :
+  Inv regs st -> pub_register env st cs f i fl = Fine st' rc ->
+  Inv (ghost_step regs (OpRegister cs f i fl)) st'.
+Proof.
+  intros HI H. unfold pub_register in H. simpl.
+  destruct (fl =? 0)%N eqn:Ef; simpl in H.
+  2:{ injection H as <- _. destruct cs; exact HI. }
+  destruct cs as [s|]; [|injection H as <- _; exact HI].
+  destruct (bs_is_empty s) eqn:Es; simpl; [injection H as <- _; exact HI|].
+  destruct (internal_register st s (if f <? 0 then UNKNOWN else f) i OVERWRITE) as [st1| |] eqn:Ei.
+  - injection H as <- _. apply rank_state_inv.
+    apply (internal_register_inv regs st s _ i OVERWRITE st1 HI Ei). apply overwrite_flag_ok.
+  - exfalso. revert Ei. now apply internal_register_not_einval.
+  - discriminate.
+Qed.
+
+(* EINVAL cases of hwloc_cpukinds_register: exactly the documented ones, state untouched *)
+Lemma pub_register_einval env st cs f i fl :
+  (fl <> 0%N \/ cs = None \/ cs = Some bs_empty) <-> pub_register env st cs f i fl = Fine st RC_EINVAL.
+Proof.
+  unfold pub_register. destruct (N.eqb_spec fl 0) as [->|Hf]; simpl.
+  2:{ split; auto. }
+  destruct cs as [s|]; [|split; auto].
+  destruct (bs_is_empty s) eqn:Es.
+  - apply bs_is_empty_spec in Es. subst. split; auto.
+  - split.
+    + intros [H|[H|H]]; [contradiction|discriminate|]. injection H as ->. discriminate.
+    + destruct (internal_register st s _ i OVERWRITE) eqn:Ei; try discriminate.
+      exfalso. revert Ei. now apply internal_register_not_einval.
+Qed.
+
+Definition no_xml (h : list (option str * op)) : Prop := Forall (fun eo => snd eo <> OpXml) h.
+
+Lemma step_inv env regs st o st' rc :
+  o <> OpXml -> Inv regs st -> step env st o = Fine st' rc -> Inv (ghost_step regs o) st'.
+Proof.
+  intros Hx HI H. destruct o; simpl in H.
+  - eapply pub_register_inv; eauto.
+  - injection H as <- _. now apply restrict_state_inv.
+  - injection H as <- _. now apply rank_state_inv.
+  - injection H as <- _. now apply dup_state_inv.
+  - contradiction.
+Qed.
+
+Lemma run_inv : forall h regs st st' rc,
+  no_xml h -> Inv regs st -> run st h = Fine st' rc -> Inv (ghost regs h) st'.
+Proof.
+  induction h as [|[env o] h IH]; intros regs st st' rc Hx HI H; simpl in *.
+  - injection H as <- _. exact HI.
+  - inversion Hx as [|? ? Ho Hh]; subst. simpl in Ho.
+    destruct (step env st o) as [st1 rc1|] eqn:Es; [|discriminate].
+    apply (IH _ st1 st' rc Hh); [|exact H]. eapply step_inv; eauto.
+Qed.
+
+Lemma init_inv : Inv [] init_state.
+Proof. constructor; simpl; [constructor|reflexivity|constructor]. Qed.
+
+(* never an out-of-bounds slot index, whatever the state and the history *)
+Lemma xml_import_no_oob : forall ks st, xml_import st ks <> inl F_OOB.
+Proof.
+  induction ks as [|k ks IH]; intros st; simpl; [discriminate|].
+  destruct (internal_register st (k_cpuset k) (k_forced k) (Some (k_infos k)) OVERWRITE) eqn:E; auto.
+  intros [= ->]. revert E. apply internal_register_bounds.
+Qed.
+
+Lemma run_no_oob : forall h st, run st h <> Fatal F_OOB.
+Proof.
+  induction h as [|[env o] h IH]; intros st; simpl; [discriminate|].
+  destruct (step env st o) as [st1 rc1|f] eqn:Es; [apply IH|].
+  intros [= ->]. destruct o; simpl in Es; try discriminate.
+  - unfold pub_register in Es. destruct (negb _); [discriminate|]. destruct cs; [|discriminate].
+    destruct (bs_is_empty b); [discriminate|].
+    destruct (internal_register st b _ infos OVERWRITE) eqn:E; try discriminate.
+    injection Es as ->. revert E. apply internal_register_bounds.
+  - unfold xml_reload in Es. destruct (xml_import init_state (kinds st)) eqn:E; [|discriminate].
+    injection Es as ->. revert E. apply xml_import_no_oob.
+Qed.
+
+(* the stale-slot error needs a registration that follows a restrict with no
+   dup / XML reload in between *)
+Fixpoint stale_free (dirty : bool) (h : list (option str * op)) : bool :=
+  match h with
+  | [] => true
+  | (_, o) :: r =>
+    match o with
+    | OpRegister _ _ _ _ => negb dirty && stale_free false r
+    | OpRestrict _ => stale_free true r
+    | OpRank => stale_free dirty r
+    | OpDup | OpXml => stale_free false r
+    end
+  end.
+
+Lemma xml_import_clean : forall ks st, Forall clean (tail st) ->
+  xml_import st ks <> inl F_STALE /\ (forall st', xml_import st ks = inr st' -> Forall clean (tail st')).
+Proof.
+  induction ks as [|k ks IH]; intros st Hc; simpl.
+  - split; [discriminate|]. intros st' [= <-]. exact Hc.
+  - destruct (internal_register_clean st (k_cpuset k) (k_forced k) (Some (k_infos k)) OVERWRITE Hc) as [C1 C2].
+    destruct (internal_register st (k_cpuset k) (k_forced k) (Some (k_infos k)) OVERWRITE) eqn:E.
+    + apply IH. now apply C2.
+    + now apply IH.
+    + split; [congruence|discriminate].
+Qed.
+
+Lemma run_stale_free : forall h st dirty,
+  (dirty = false -> Forall clean (tail st)) -> stale_free dirty h = true -> run st h <> Fatal F_STALE.
+Proof.
+  induction h as [|[env o] h IH]; intros st dirty Hc Hs; simpl in *; [discriminate|].
+  destruct o; simpl.
+  - apply andb_true_iff in Hs. destruct Hs as [Hd Hs]. apply negb_true_iff in Hd. specialize (Hc Hd).
+    unfold pub_register. destruct (negb _); [apply (IH st false); auto|].
+    destruct cs as [s|]; [|apply (IH st false); auto].
+    destruct (bs_is_empty s); [apply (IH st false); auto|].
+    destruct (internal_register_clean st s (if forced <? 0 then UNKNOWN else forced) infos OVERWRITE Hc) as [C1 C2].
+    destruct (internal_register st s _ infos OVERWRITE) eqn:E.
+    + apply (IH _ false); [|exact Hs]. intros _. simpl. now apply C2.
+    + apply (IH st false); auto.
+    + congruence.
+  - apply (IH _ true); [discriminate|exact Hs].
+  - apply (IH _ dirty); [|exact Hs]. exact Hc.
+  - apply (IH _ false); [|exact Hs]. intros _. constructor.
+  - unfold xml_reload. destruct (xml_import_clean (kinds st) init_state) as [X1 X2]; [constructor|].
+    destruct (xml_import init_state (kinds st)) eqn:E; [congruence|].
+    apply (IH _ false); [|exact Hs]. intros _. simpl. now apply X2.
+Qed.
